@@ -3,6 +3,7 @@ package main
 import (
 	"bytes"
 	"encoding"
+	"encoding/gob"
 	"fmt"
 	"hash"
 	"hash/fnv"
@@ -314,9 +315,60 @@ func runHLL(c *Ctx) *Violation {
 	c.Instance["precision"] = prec
 	c.Instance["hash"] = []string{"fnv-1a", "fnv-1"}[which]
 	c.Instance["writes"] = n
-	c.Declare("restored_into_nil_hash", "union_mismatched_precision_rejected", "union_mismatched_hash_rejected", "decode_into_other_hash_rejected", "corrupted_sketch_accepted")
+	c.Declare("restored_into_nil_hash", "union_mismatched_precision_rejected", "union_mismatched_hash_rejected", "decode_into_other_hash_rejected", "corrupted_sketch_accepted", "rejected_input_into_used_receiver", "top_precision")
 	desc := func(s string) func() string {
 		return func() string { return fmt.Sprintf("%s p=%d %v, %d writes: %s", name, prec, c.Instance["hash"], n, s) }
+	}
+	// the top of the precision range: 2^bits registers cannot exist, so either
+	// the constructor and the decoder refuse the precision or what they return
+	// is a sketch one can write to (structured header corruption: the precision
+	// field set to the word size over an empty register)
+	if t.Choose(simrt.KWorkload, 16) == 15 {
+		if v := c.Guard(name+"/top-precision", desc("precision equal to the word size"), func() *Violation {
+			c.Case("control", false, uint64(bits), 4242)
+			c.Oracle("top-precision")
+			c.Probe("top_precision", 1)
+			probe := func(what string, z sketch) *Violation {
+				var p interface{}
+				func() {
+					defer func() { p = recover() }()
+					z.Write(item(1))
+					if cnt := z.Count(); math.IsNaN(cnt) || cnt < 0 {
+						p = fmt.Sprintf("Count() = %v", cnt)
+					}
+				}()
+				if p != nil {
+					return viol("hll-state/"+name+"/top-precision", "%s returned no error, and the sketch cannot be used: %v", what, p)
+				}
+				return nil
+			}
+			if z, err := newSketch(bits, bits, hashCtor(bits, which)); err == nil {
+				if v := probe(fmt.Sprintf("NewHyperLogLog%d(%d, h)", bits, bits), z); v != nil {
+					return v
+				}
+			}
+			var buf bytes.Buffer
+			enc := gob.NewEncoder(&buf)
+			enc.Encode(uint8(bits))
+			small, _ := newSketch(bits, 4, hashCtor(bits, which))
+			sb, _ := small.MarshalBinary()
+			// the hash name as the package spells it: second value of a real encoding
+			dec := gob.NewDecoder(bytes.NewReader(sb))
+			var size uint8
+			var hname string
+			dec.Decode(&size)
+			dec.Decode(&hname)
+			enc.Encode(hname)
+			enc.Encode(uint8(bits))
+			enc.Encode([]byte{})
+			z, _ := newSketch(bits, 4, hashCtor(bits, which))
+			if err := z.UnmarshalBinary(buf.Bytes()); err == nil {
+				return probe(fmt.Sprintf("UnmarshalBinary of an encoding with precision %d and an empty register", bits), z)
+			}
+			return nil
+		}); v != nil {
+			return v
+		}
 	}
 	var final []byte
 	// control + restart@k
@@ -513,9 +565,22 @@ func runHLL(c *Ctx) *Violation {
 		kk := k
 		if v := c.Guard(name+"/truncated", desc(fmt.Sprintf("encoding truncated to %d of %d bytes", kk, len(final))), func() *Violation {
 			z := zeroSketch(bits)
+			used := kk%2 == 1
+			if used {
+				// the receiver is a sketch in use: a rejected input must leave
+				// it a sketch one can go on using
+				z, _ = newSketch(bits, 4+kk%3, hashCtor(bits, which))
+				z.Write(item(0))
+			}
 			err := z.UnmarshalBinary(final[:kk])
 			c.Case("eof@k", true, uint64(bits), hashBytes(final), uint64(kk))
 			c.Oracle("truncated")
+			if err != nil && used {
+				c.Probe("rejected_input_into_used_receiver", 1)
+				if why := usable(z); why != "" {
+					return viol("hll-state/"+name+"/receiver-unusable-after-rejected-input", "UnmarshalBinary rejected %d of %d bytes (%v) and left the receiver, a sketch of precision %d in use, unusable: %s", kk, len(final), err, 4+kk%3, why)
+				}
+			}
 			if err == nil {
 				if why := usable(z); why != "" {
 					return viol("hll-state/"+name+"/truncated-accepted-inconsistent", "UnmarshalBinary accepted %d of %d bytes and the sketch is unusable: %s", kk, len(final), why)
@@ -544,11 +609,22 @@ func runHLL(c *Ctx) *Violation {
 				return fmt.Sprintf("%s p=%d: encoding with byte %d changed %#02x -> %#02x: %x", name, prec, o, final[o], cor[o], cor)
 			}, func() *Violation {
 				z := zeroSketch(bits)
+				used := (o+vr)%2 == 1
+				if used {
+					z, _ = newSketch(bits, 4+(o+vr)%3, hashCtor(bits, which))
+					z.Write(item(0))
+				}
 				err := z.UnmarshalBinary(cor)
 				c.Case("set(byte)", true, uint64(bits), hashBytes(final), uint64(o), uint64(vr), uint64(cor[o]))
 				c.Oracle("corrupt-wellformed")
 				if err != nil {
 					c.Outcome("corrupt.rejected")
+					if used {
+						c.Probe("rejected_input_into_used_receiver", 1)
+						if why := usable(z); why != "" {
+							return viol("hll-state/"+name+"/receiver-unusable-after-rejected-input", "UnmarshalBinary rejected the encoding with byte %d changed %#02x -> %#02x (%v) and left the receiver, a sketch of precision %d in use, unusable: %s", o, final[o], cor[o], err, 4+(o+vr)%3, why)
+						}
+					}
 					return nil
 				}
 				c.Outcome("corrupt.accepted")
